@@ -262,6 +262,7 @@ def run(ctx):
                                      "non-trivial = at least one fiber slept in the barrier (returned 0)"})
         if ctx.failures and not ctx.violations:
             search(ctx, exe)
+    core.init_contract(ctx, ["fiber_barrier"])  # rt/h_init.c: real init on dirty memory
     core.finish(ctx, extra_assumptions=ASSUME)
 
 
@@ -284,6 +285,8 @@ def search(ctx, exe):
 
 
 def replay(ctx, payload):
+    if payload.get("harness") == "h_init":
+        return core.replay_init(ctx, payload)
     exe = build(ctx)
     c = payload.get("case")
     if not exe or not c:
